@@ -95,6 +95,9 @@ def _gen_h1(rng, n, tier):
             client.append(["feed", ws.handshake(path=b"/t%d" % tag)])
             marks.append({"kind": "ws", "t": t, "tag": tag})
             ws_open = True
+            if rng.random() < 0.4:
+                # the server keeps the WebSocket alive with pings of its own: a task that must not outlive the connection either
+                config["websocket_ping_interval"] = rng.choice([0.7 * T, 10 * T, 1000.0])
             # long silence on an open websocket, then maybe a client close
             d = rng.choice([0.5 * T, 3 * T])
             client.append(["advance", d])
